@@ -1487,7 +1487,7 @@ func TestVerifC36(t *testing.T) {
 			res := filepath.Join(dir, fmt.Sprintf("cfg%d.json", idx))
 			cmd := exec.Command(os.Args[0], "-test.run=^TestVerifC36Worker$", "-test.timeout=3000s")
 			cmd.Env = append(os.Environ(), fmt.Sprintf("VERIF_C36_WORKER=%d:%d:%f:%s", idx, depth, perWorker, res),
-				"VERIF_EVIDENCE="+filepath.Join(dir, fmt.Sprintf("ev%d.json", idx)), "GOMAXPROCS=2", "GOGC=300")
+				"VERIF_EVIDENCE="+filepath.Join(dir, fmt.Sprintf("ev%d.json", idx)), "GOMAXPROCS=1", "GOGC=300") // one P: vNewNode's Gosched spin (waiting for the lighthouse worker goroutine to exit) cannot starve on a loaded box
 			ob, err := cmd.CombinedOutput()
 			b, rerr := os.ReadFile(res)
 			if rerr != nil {
